@@ -239,6 +239,7 @@ type Engine struct {
 	wantNowrap bool
 	lazyCells  map[string]int
 	reachCount map[string]int
+	callbacksWriteDB bool
 	fnCache    map[string]*ssa.Function
 	allFns     map[*ssa.Function]bool
 	lastSideSrc *State
